@@ -17,6 +17,7 @@ import types
 
 import numpy as np
 
+from . import form
 from . import oracles as orc
 
 CACHE_ATTRS = ("Sigma", "ln_det_Sigma", "ln_det_Lambda", "mu", "lnZ")
@@ -407,6 +408,14 @@ def _wrap_method(cls, name, fn):
                 flags = ""
         else:
             st.inner_events[key] = st.inner_events.get(key, 0) + 1
+        form_pre = None
+        if boundary and "FORM" in st.monitors and st.rec is not None and (
+                name not in form.SKIP_METHODS):
+            try:
+                if form.selected(f"{key}[{flags}]") and not form.has_tracer((self, args, kwargs)):
+                    form_pre = form.clone_state((self, args, kwargs))
+            except Exception:
+                form_pre = None
         st.depth += 1
         st.stack.append((cname, name, id(self)))
         if is_ctor:
@@ -440,6 +449,17 @@ def _wrap_method(cls, name, fn):
                     run_monitors(objs, f"{key}[{flags}]")
                 finally:
                     st.suspend -= 1
+        if form_pre is not None:
+            st.suspend += 1
+            try:
+                if not form.has_tracer(res):
+                    form.run(fn, name, f"{key}[{flags}]", res, form_pre, st, _report, _count)
+            except Exception as e:  # a monitor must never break the workload
+                st.rec.count("monitor_error")
+                if len(st.rec.notes) < 5:
+                    st.rec.notes.append(f"FORM monitor error at {key}: {e!r}")
+            finally:
+                st.suspend -= 1
         return res
 
     wrapper.__name__ = getattr(fn, "__name__", name)
